@@ -22,7 +22,7 @@ ASSUMPTIONS = ['mean/std estimator is numpy mean/std of the leading min(N,len) s
                'rounding ties (pre-round value within 1e-9 of x.5) are excluded',
                'inputs whose squares overflow a double are outside the domain']
 REQUIRED_CLASSES = ['kind=real', 'kind=complex', 'kind=free_real', 'kind=free_complex', 'period>1', 'period<=0',
-                    'dist=const_inexact', 'dist=const_exact', 'dist=huge', 'dist=tiny', 'dist=lead_const', 'custom=scalar', 'custom=pair',
+                    'dist=const_inexact', 'dist=const_exact', 'dist=huge', 'dist=tiny', 'dist=lead_const', 'custom=scalar', 'custom=pair', 'dist=int_const', 'dist=int_var', 'period>256', 'period_numpy_int',
                     'mixed_clip', 'refresh_and_hold']
 
 FWHM_M = 2 * math.sqrt(2 * math.log(2))
@@ -42,6 +42,11 @@ arr_spec = st.one_of(
                            'a': st.sampled_from([0.1, 0.3, -0.7, 1.1, 7.7, 123.456])}),
     st.fixed_dictionaries({'dist': st.just('const_exact'), 'n': st.integers(1, 60),
                            'a': st.sampled_from([0.0, 1.0, -2.5, 1024.0, 0.125])}),
+    # integer-typed voltages (digitised data are integers): constant and varying
+    st.fixed_dictionaries({'dist': st.just('int_const'), 'n': st.integers(1, 60), 'a': st.integers(-100, 100),
+                           'dtype': st.sampled_from(['int64', 'int32', 'int8', 'uint8'])}),
+    st.fixed_dictionaries({'dist': st.just('int_var'), 'n': st.integers(2, 200), 'seed': st.integers(0, 2 ** 20),
+                           'dtype': st.sampled_from(['int64', 'int32', 'int8', 'uint8'])}),
     st.fixed_dictionaries({'dist': st.just('huge'), 'n': st.integers(2, 100), 'seed': st.integers(0, 2 ** 20),
                            'e': st.integers(20, 150)}),
     st.fixed_dictionaries({'dist': st.just('tiny'), 'n': st.integers(2, 100), 'seed': st.integers(0, 2 ** 20),
@@ -66,7 +71,8 @@ def strategy(tier):
                            st.tuples(st.integers(-3, 2), gen.finite(0.01, 0.49)).map(lambda t: t[0] + t[1]),
                            st.tuples(st.integers(-3, 2), gen.finite(0.51, 0.99)).map(lambda t: t[0] + t[1])),
         'fwhm': st.one_of(st.just(32.0), gen.finite(0.5, 64.0)),
-        'period': st.sampled_from([-3, -1, 0, 1, 1, 2, 3, 5]),
+        'period': st.one_of(st.sampled_from([-3, -1, 0, 1, 1, 2, 3, 5]), st.sampled_from([-3, -1, 0, 1, 1, 2, 3, 5]), st.sampled_from([-3, -1, 0, 1, 2, 3, 5, 257, 300])),
+        'period_type': st.sampled_from(['int', 'int', 'int64']),
         'N': st.one_of(st.integers(1, 60), st.integers(1, 500), st.just(10000)),
         'calls': st.lists(call_spec, min_size=1, max_size=12),
     })
@@ -78,6 +84,12 @@ def make_array(spec):
         return np.array(spec['values'], dtype=float)
     if d in ('const_inexact', 'const_exact'):
         return np.full(spec['n'], spec['a'], dtype=float)
+    if d == 'int_const':
+        a = spec['a'] % 100 if spec['dtype'] == 'uint8' else spec['a']
+        return np.full(spec['n'], a, dtype=spec['dtype'])
+    if d == 'int_var':
+        lo, hi = (0, 200) if spec['dtype'] == 'uint8' else (-100, 100)
+        return np.random.RandomState(spec['seed']).randint(lo, hi, size=spec['n']).astype(spec['dtype'])
     rs = np.random.RandomState(spec['seed'])
     n = spec['n']
     if d == 'lead_const':
@@ -136,6 +148,7 @@ class RefReal(object):
 
 
 def predict(x, tmean, tstd, bits, mean, std):
+    x = np.asarray(x, dtype=float)
     """Returns (expected ints, mask of samples to compare, pre-round values)."""
     lo, hi = -2 ** (bits - 1), 2 ** (bits - 1) - 1
     if std == 0:
@@ -161,6 +174,7 @@ def check_out(obs, tag, q, exp, mask, y, x, bits):
         obs.fail(f'not_integral:{tag}', '')
     if q.min() < lo or q.max() > hi:
         obs.fail(f'range:{tag}', f'[{q.min()},{q.max()}] not in [{lo},{hi}]')
+    x = np.asarray(x, dtype=float)
     order = np.argsort(x, kind='stable')
     if np.any(np.diff(q[order].astype(float)) < 0):
         obs.fail(f'monotone:{tag}', '')
@@ -181,6 +195,9 @@ def run_case(case, ctx):
     obs = core.Obs()
     kind, bits, tmean, fwhm = case['kind'], case['bits'], case['tmean'], case['fwhm']
     period, N = case['period'], case['N']
+    period_arg = np.int64(period) if case.get('period_type') == 'int64' else period
+    if case.get('period_type') == 'int64':
+        obs.cls('period_numpy_int')
     obs.cls('kind=' + kind, f'bits={bits}',
             'period>1' if period > 1 else ('period=1' if period == 1 else 'period<=0'))
     tstd = fwhm / FWHM_M
@@ -191,15 +208,20 @@ def run_case(case, ctx):
         if kind in ('real', 'complex'):
             if kind == 'real':
                 ok, qz = core.call(obs, 'construct', Q.RealQuantizer, target_mean=tmean, target_fwhm=fwhm,
-                                   num_bits=bits, stats_calc_period=period, stats_calc_num_samples=N)
+                                   num_bits=bits, stats_calc_period=period_arg, stats_calc_num_samples=N)
                 refs = [RefReal(tmean, fwhm, bits, period, N)]
             else:
                 ok, qz = core.call(obs, 'construct', Q.ComplexQuantizer, target_mean=tmean, target_fwhm=fwhm,
-                                   num_bits=bits, stats_calc_period=period, stats_calc_num_samples=N)
+                                   num_bits=bits, stats_calc_period=period_arg, stats_calc_num_samples=N)
                 refs = [RefReal(tmean, fwhm, bits, period, N), RefReal(tmean, fwhm, bits, period, N)]
             if not ok:
                 return obs
-            for k, c in enumerate(case['calls']):
+            calls = list(case['calls'])
+            if period > 100:
+                obs.cls('period>256')
+                # the refresh on call p must happen: cycle the drawn calls until two periods have passed
+                calls = [dict(calls[i % len(calls)], reset=False) for i in range(2 * period + 3)]
+            for k, c in enumerate(calls):
                 if c['reset']:
                     ok, _ = core.call(obs, 'reset', qz._reset_cache)
                     for r in refs:
